@@ -462,8 +462,9 @@ def parse_url(url_text: bytes) -> list[Node]:
                 offset := offset + len(url.path),
             )
         )
+    if url_text[offset : offset + 1] == b"?":
+        offset += 1  # query starts with ? (present even when the query is empty)
     if url.query:
-        offset += 1  # query starts with ?
         out.append(
             Node(
                 "network.url.query",
@@ -472,8 +473,9 @@ def parse_url(url_text: bytes) -> list[Node]:
                 end=(offset := offset + len(url.query)),
             )
         )
-    if url.fragment:
+    if url_text[offset : offset + 1] == b"#":
         offset += 1  # fragment starts with #
+    if url.fragment:
         out.append(
             Node(
                 "network.url.fragment",
